@@ -6,6 +6,11 @@ column, down: rows below, right: columns to the right - whole half-planes, not o
 Instance: {"height", "width", "problem": [[y, x, up, left, down, right], ...]} (arm -1 = blank, >= 0 = number); compass i
 of the list owns region i.  Well-formed: compasses on distinct cells inside the board, at least one compass.
 Answer keys (fixed order): division[y][x] row-major, value = index (in the problem list) of the compass owning the cell.
+
+Large family (shape ("large", h, w)): boards 4x4 .. 6x6 and long thin boards with three to six compasses.  There the
+product enumeration of divisions() is out of reach; clued_divisions() grows the regions one after the other as connected
+cell sets (bit masks) and uses the clues of the compass being grown to cut the growth (a count can only rise while a
+region grows, and can never exceed what is still reachable).  selftest() compares it with divisions() + filter.
 """
 
 import itertools
@@ -40,6 +45,296 @@ def divisions(h, w, roots):
     return out
 
 
+# ---- large boards: region-by-region search on bit masks -------------------------------------------
+_CDIV = {}
+
+
+def _bits(m):
+    return bin(m).count("1")
+
+
+def clued_divisions(h, w, prob):
+    """All maps cell -> compass index (row-major tuples) such that region i is orthogonally connected, contains compass i
+    and no other compass, and has exactly the numbers of cells above / left of / below / right of its compass that the
+    arms of compass i ask for (-1: anything).  Region 0 ranges over all connected cell sets around its compass, then
+    region 1 over those of the rest, ...; the last region takes what is left."""
+    key = (h, w, tuple(tuple(c) for c in prob))
+    if key in _CDIV:
+        return _CDIV[key]
+    n = len(prob)
+    ncell = h * w
+    full = (1 << ncell) - 1
+    notfirst = 0
+    notlast = 0
+    for y in range(h):
+        for x in range(w):
+            if x > 0:
+                notfirst |= 1 << (y * w + x)
+            if x < w - 1:
+                notlast |= 1 << (y * w + x)
+
+    def around(m):
+        return (m << w) & full | (m >> w) | ((m & notlast) << 1) | ((m & notfirst) >> 1)
+
+    def flood(m, allowed):
+        while True:
+            nxt = (m | around(m)) & allowed
+            if nxt == m:
+                return m
+            m = nxt
+
+    rootbit = [1 << (c[0] * w + c[1]) for c in prob]
+    allroots = 0
+    for b in rootbit:
+        allroots |= b
+    planes = []  # per compass: [(mask of the half plane, wanted count)] for the arms that carry a number
+    for (y, x, up, lf, dw, rg) in prob:
+        pl = []
+        for want, cond in ((up, lambda yy, xx: yy < y), (lf, lambda yy, xx: xx < x), (dw, lambda yy, xx: yy > y), (rg, lambda yy, xx: xx > x)):
+            if want >= 0:
+                m = 0
+                for yy in range(h):
+                    for xx in range(w):
+                        if cond(yy, xx):
+                            m |= 1 << (yy * w + xx)
+                pl.append((m, want))
+        planes.append(pl)
+
+    out = []
+    regions = [0] * n
+
+    def emit():
+        lab = [None] * ncell
+        for i in range(n):
+            m = regions[i]
+            while m:
+                b = m & -m
+                m ^= b
+                lab[b.bit_length() - 1] = i
+        out.append(tuple(lab))
+
+    def exact(i, m):
+        return all(_bits(m & pm) == want for pm, want in planes[i])
+
+    # the compasses with the most numbers are grown first (any order lists the same divisions)
+    order = sorted(range(n), key=lambda i: (-len(planes[i]), sum(want for _, want in planes[i]), i))
+
+    def region(k, rest):
+        """rest: mask of the cells not owned by the regions order[0..k-1] (holds the compasses order[k..])."""
+        i = order[k]
+        if k == n - 1:
+            if flood(rootbit[i], rest) == rest and exact(i, rest):
+                regions[i] = rest
+                emit()
+            return
+        later = [order[j] for j in range(k + 1, n)]
+        latermask = 0
+        for j in later:
+            latermask |= rootbit[j]
+        free = rest & ~latermask
+
+        def viable(left):
+            # every cell that is left must still reach a later compass, and every later compass must still reach
+            # enough cells for each of its numbers
+            seen = 0
+            for j in later:
+                if not seen & rootbit[j]:
+                    seen |= flood(rootbit[j], left)
+            if seen != left:
+                return False
+            for j in later:
+                if planes[j]:
+                    reach = flood(rootbit[j], left & ~latermask | rootbit[j])
+                    for pm, want in planes[j]:
+                        if _bits(reach & pm) < want:
+                            return False
+            return True
+
+        def grow(cur, banned):
+            pl = planes[i]
+            if pl:
+                reach = flood(cur, free & ~banned)
+                for pm, want in pl:
+                    if _bits(cur & pm) > want or _bits(reach & pm) < want:
+                        return
+            if exact(i, cur) and viable(rest & ~cur):
+                regions[i] = cur
+                region(k + 1, rest & ~cur)
+            front = around(cur) & free & ~cur & ~banned
+            b = banned
+            while front:
+                c = front & -front
+                front ^= c
+                grow(cur | c, b)
+                b |= c
+
+        grow(rootbit[i], 0)
+
+    region(0, full)
+    out.sort()
+    _CDIV[key] = out
+    return out
+
+
+def full_clues(h, w, roots, d):
+    """The complete clue set that the division d (row-major labels) implies for compasses on `roots`."""
+    prob = []
+    for i, (y, x) in enumerate(roots):
+        cu = cl = cd = cr = 0
+        for yy in range(h):
+            for xx in range(w):
+                if d[yy * w + xx] == i:
+                    cu += yy < y
+                    cd += yy > y
+                    cl += xx < x
+                    cr += xx > x
+        prob.append([y, x, cu, cl, cd, cr])
+    return prob
+
+
+def snake_division(h, w, n, by_columns=False):
+    """A hand-made division for boards too large to list all of them: the boustrophedon walk over the board cut into n
+    runs of nearly equal length; returns (roots, labels), the compass of a run sitting on its middle cell."""
+    order = []
+    if not by_columns:
+        for y in range(h):
+            row = [(y, x) for x in range(w)]
+            order += row[::-1] if y % 2 else row
+    else:
+        for x in range(w):
+            col = [(y, x) for y in range(h)]
+            order += col[::-1] if x % 2 else col
+    lab = [None] * (h * w)
+    roots = []
+    for i in range(n):
+        lo, hi = i * h * w // n, (i + 1) * h * w // n
+        for (y, x) in order[lo:hi]:
+            lab[y * w + x] = i
+        roots.append(order[(lo + hi) // 2])
+    return roots, tuple(lab)
+
+
+LARGE_QUICK = [(4, 4), (3, 5), (5, 3), (5, 5), (1, 12), (12, 1), (2, 8), (8, 2)]
+LARGE_THOROUGH = [(4, 5), (5, 4), (3, 6), (6, 3), (2, 10), (10, 2), (1, 15), (15, 1), (4, 6), (6, 4), (6, 6)]
+# boards whose clue-free divisions (three compasses) can be listed completely: source of the dense instances
+_LISTABLE = {(4, 4), (3, 5), (5, 3), (1, 12), (12, 1), (2, 8), (8, 2), (4, 5), (5, 4), (3, 6), (6, 3), (2, 10), (10, 2), (1, 15), (15, 1)}
+
+
+def _picks(n, count):
+    """count indices spread evenly over range(n), first and last included."""
+    if n <= count:
+        return list(range(n))
+    return sorted(set(round(i * (n - 1) / (count - 1)) for i in range(count)))
+
+
+def _dense_variants(full, rich, huge=False):
+    """Problems derived from a complete clue set: itself, with every k-th arm blanked, with one arm changed by one."""
+    n = len(full)
+    arms = [a for c in full for a in c[2:]]
+
+    def build(a):
+        return [[full[i][0], full[i][1]] + list(a[4 * i : 4 * i + 4]) for i in range(n)]
+
+    out = [build(arms)]
+    for k, off in ([(2, 0), (2, 1), (3, 0), (3, 2), (4, 1)] if rich else [(2, 1), (3, 0)]):
+        if huge and k == 2:
+            continue  # half of the numbers gone on a 6x6 board: too many divisions to list
+        out.append(build([-1 if j % k == off else a for j, a in enumerate(arms)]))
+    m = len(arms)
+    spots = [(0, 1), (m - 1, -1), (m // 2, 1), (1, -1), (m - 2, 1)]
+    if rich:
+        spots += [(p, -d) for p, d in spots] + [(m // 4, 1), (m // 4, -1), (3 * m // 4, 1), (3 * m // 4, -1)]
+    seen = set()
+    for pos, delta in spots:
+        if arms[pos] + delta < 0:
+            delta = 1  # 0 - 1 would be the blank arm, not a changed number
+        if (pos, delta) in seen:
+            continue
+        seen.add((pos, delta))
+        a = list(arms)
+        a[pos] += delta
+        out.append(build(a))
+    return out
+
+
+def large_instances(h, w, rich):
+    def inst(prob):
+        return {"height": h, "width": w, "problem": [list(c) for c in prob]}
+
+    far = (h - 1, w - 1)
+    # one compass in the far corner: clue-free, its complete clue set (whole board; two-digit numbers), one arm off by one
+    up, lf = (h - 1) * w, h * (w - 1)
+    yield inst([[far[0], far[1], -1, -1, -1, -1]])
+    yield inst([[far[0], far[1], up, lf, 0, 0]])
+    yield inst([[far[0], far[1], up - 1 if up else 1, -1, -1, -1]])
+    yield inst([[far[0], far[1], -1, lf + 1, -1, -1]])
+    yield inst([[0, 0, -1, -1, up, lf]])
+    # two compasses in opposite corners: clue-free where listable, and large numbers on the arms pointing at each other
+    if h * w <= 25:
+        yield inst([[0, 0, -1, -1, -1, -1], [far[0], far[1], -1, -1, -1, -1]])
+    top = (up if h > 1 else lf) - 1  # the most cells the first compass can own beyond its own row (column)
+    vals = [top, top + 1] + ([10] if 10 < top < 25 else []) + ([top - 1] if rich else []) + ([11] if rich and 11 < top < 25 else [])
+    for v in vals:
+        if h > 1:
+            yield inst([[0, 0, -1, -1, v, -1], [far[0], far[1], -1, -1, -1, -1]])
+            yield inst([[far[0], far[1], v, -1, -1, -1], [0, 0, -1, -1, -1, -1]])
+        else:
+            yield inst([[0, 0, -1, -1, -1, v], [far[0], far[1], -1, -1, -1, -1]])
+            yield inst([[far[0], far[1], -1, v, -1, -1], [0, 0, -1, -1, -1, -1]])
+    # dense instances
+    grids = []
+    if (h, w) in _LISTABLE:
+        roots = [far, ((h - 1) // 2, (w - 1) // 2), (h - 1, 0) if h > 1 and w > 1 else (0, 0)]
+        free = [[y, x, -1, -1, -1, -1] for y, x in roots]
+        yield inst(free)
+        divs = clued_divisions(h, w, free)
+        ngrids = 5 if (h, w) == (4, 4) else (3 if h > 1 and w > 1 else 2)
+        if not rich:
+            ngrids = 2 if (h, w) == (4, 4) else 1
+        idx = _picks(len(divs), ngrids + 2)[1:-1] if not rich else _picks(len(divs), ngrids)
+        for i in idx:
+            grids.append((roots, divs[i]))
+    else:
+        n = 4 if h * w <= 25 else 5
+        grids.append(snake_division(h, w, n))
+        if rich or h != w:
+            grids.append(snake_division(h, w, n, by_columns=True))
+        if rich:
+            grids.append(snake_division(h, w, n + 1))
+    for roots, d in grids:
+        for prob in _dense_variants(full_clues(h, w, roots, d), rich, h * w > 25):
+            yield inst(prob)
+
+
+def selftest():
+    """clued_divisions == divisions + clue filter on the small boards, clue-free and for every single / double clue with
+    values 0..3 on the arms of the first two compasses."""
+    rule = Compass()
+    cases = 0
+    for h, w in [(1, 3), (3, 1), (2, 2), (2, 3), (3, 2), (3, 3), (2, 4), (4, 2), (3, 4)]:
+        cells = [(y, x) for y in range(h) for x in range(w)]
+        for n in (1, 2, 3):
+            if h * w > 9 and n != 2:
+                continue
+            for k, pl in enumerate(itertools.combinations(cells, n)):
+                if h * w > 6 and k % 3:
+                    continue
+                pl = list(pl) if k % 2 == 0 else list(reversed(pl))
+                lays, _ = base.layouts(4 * min(n, 2), -1, [0, 1, 2, 3], 150)
+                for arms in lays:
+                    arms = list(arms) + [-1] * (4 * n - len(arms))
+                    prob = [[pl[i][0], pl[i][1]] + arms[4 * i : 4 * i + 4] for i in range(n)]
+                    a = sorted(rule._readings_small({"height": h, "width": w, "problem": prob}))
+                    b = clued_divisions(h, w, prob)
+                    assert a == b, (h, w, prob, len(a), len(b))
+                    cases += 1
+    # the full clue set of a division is obeyed by that division
+    for h, w, n in [(4, 4, 3), (5, 5, 4), (3, 5, 3)]:
+        roots, d = snake_division(h, w, n)
+        assert d in clued_divisions(h, w, full_clues(h, w, roots, d))
+    return cases
+
+
 class Compass(base.Rule):
     name = "compass"
 
@@ -57,12 +352,19 @@ class Compass(base.Rule):
                 out.append((h, w, 2))
             for h, w in [(1, 3), (3, 1), (2, 2), (2, 3), (3, 2), (3, 3)]:
                 out.append((h, w, 3))
+        out += [("large", h, w) for h, w in LARGE_QUICK]
+        if tier != "quick":
+            out += [("large", h, w) for h, w in LARGE_THOROUGH]
         return out
 
     def _alphabet(self, shape, cap):
         return [0, 1, 2] if cap <= 1000 else [0, 1, 2, 3]
 
     def instances(self, shape, cap):
+        if shape[0] == "large":
+            for p in large_instances(shape[1], shape[2], cap > 1000):
+                yield p
+            return
         h, w, n = shape
         cells = [(y, x) for y in range(h) for x in range(w)]
         places = list(itertools.combinations(cells, n))
@@ -90,6 +392,12 @@ class Compass(base.Rule):
         return is_sat, base.sols_of(division)
 
     def readings(self, p):
+        h, w, prob = p["height"], p["width"], p["problem"]
+        if len(prob) ** (h * w - len(prob)) > 5000:
+            return [clued_divisions(h, w, prob)]
+        return [self._readings_small(p)]
+
+    def _readings_small(self, p):
         h, w = p["height"], p["width"]
         prob = p["problem"]
         roots = [(c[0], c[1]) for c in prob]
@@ -110,7 +418,7 @@ class Compass(base.Rule):
                     break
             if ok:
                 out.append(d)
-        return [out]
+        return out
 
     def example(self):
         prob = [[1, 2, -1, 1, -1, -1], [2, 1, 2, -1, 5, 1], [2, 3, 5, -1, 3, -1], [3, 2, 1, -1, -1, 1]]
